@@ -37,6 +37,9 @@ def plan(tier, seed):
                       "cfg_over": {"min_T": 11, "max_T": 13, "max_cells": 600, "max_states": 2, "max_choices": 2, "max_cont_state_pts": 4, "max_cont_choice_pts": 4,
                                    "no_period": i % 3 == 0},
                       "force": {"two_stochastic": False, "two_cont_states": False, "two_cont_choices": False}, "env": {"VERIF_X64": "1"}})
+    for i in range(9 if q else 60):  # utility in integer arithmetic (integer dtype meets a, b and beta)
+        cases.append({"kind": "small", "law": ["affine", "horizon", "beta0"][i % 3], "template": "int_utility", "index": i, "seed": [seed, 114, i],
+                      "cfg": "quick", "env": {"VERIF_X64": "1"}})
     for i in range(9 if q else 48):
         cases.append({"kind": "large", "law": ["affine", "beta0", "horizon"][i % 3], "index": i, "seed": [seed, 112, i],
                       "size": ([60, 150, 4] if q else [[100, 500, 5], [200, 700, 6], [300, 1000, 8]][i % 3]), "filter": i % 2 == 1, "env": {"VERIF_X64": "1"}})
